@@ -192,8 +192,9 @@ def _lower(stmts, res):
 
 # ---------------------------------------------------------------------------------------------- inliner
 class Inliner:
-    def __init__(self, ix: Index):
+    def __init__(self, ix: Index, max_stmts=None):
         self.ix = ix
+        self.max_stmts = max_stmts or MAX_STMTS
         self.count = 0
         self.sites = []
         self.inlined = set()
@@ -243,7 +244,7 @@ class Inliner:
         a = n.args
         if a.vararg or a.kwarg:
             return False
-        if sum(isinstance(x, ast.stmt) for x in ast.walk(n)) - 1 > MAX_STMTS:
+        if sum(isinstance(x, ast.stmt) for x in ast.walk(n)) - 1 > self.max_stmts:
             return False
         for x in ast.walk(n):
             if isinstance(x, (ast.Yield, ast.YieldFrom, ast.Await, ast.Global, ast.Nonlocal)):
@@ -654,6 +655,291 @@ class Unroller:
             i += 1
 
 
+def propagate_renames(fnode):
+    """`a = x` / `a, b = (x, y)` between plain local names, at the top level of the function, where `a` is stored nowhere
+    else and `x` is not stored after that statement: every later `a` is `x`.  The statement is dropped and the uses are
+    renamed (what inlining a helper that returns its locals leaves behind).  Returns the number of names removed."""
+    stores = {}
+    for n in ast.walk(fnode):
+        if isinstance(n, ast.Name) and isinstance(n.ctx, (ast.Store, ast.Del)):
+            stores.setdefault(n.id, []).append(n)
+        elif isinstance(n, ast.arg):
+            stores.setdefault(n.arg, []).append(n)
+    # names captured by nested functions are left alone
+    captured = set()
+    for n in ast.walk(fnode):
+        if isinstance(n, (ast.FunctionDef, ast.AsyncFunctionDef, ast.Lambda)) and n is not fnode:
+            captured |= {x.id for x in ast.walk(n) if isinstance(x, ast.Name)}
+    removed = 0
+    i = 0
+    body = fnode.body
+    while i < len(body):
+        st = body[i]
+        pairs = None
+        if isinstance(st, ast.Assign) and len(st.targets) == 1:
+            t, v = st.targets[0], st.value
+            if isinstance(t, ast.Name) and isinstance(v, ast.Name):
+                pairs = [(t, v)]
+            elif isinstance(t, (ast.Tuple, ast.List)) and isinstance(v, (ast.Tuple, ast.List)) and len(t.elts) == len(v.elts) \
+                    and all(isinstance(x, ast.Name) for x in t.elts + v.elts):
+                pairs = list(zip(t.elts, v.elts))
+        if pairs:
+            tn = [a.id for a, _ in pairs]
+            ok = len(set(tn)) == len(tn) and not (set(tn) & {b.id for _, b in pairs})
+            for a, b in pairs:
+                if len(stores.get(a.id, [])) != 1 or a.id in captured or b.id in captured or b.id not in stores:
+                    ok = False
+                    break
+            if ok:
+                later_b = [x for a, b in pairs for rest in body[i + 1:] for x in ast.walk(rest)
+                           if isinstance(x, ast.Name) and x.id == b.id and isinstance(x.ctx, (ast.Store, ast.Del))]
+                if not later_b:
+                    ren = {a.id: b.id for a, b in pairs}
+                    for rest in body[i + 1:]:
+                        for x in ast.walk(rest):
+                            if isinstance(x, ast.Name) and x.id in ren:
+                                x.id = ren[x.id]
+                    del body[i]
+                    removed += len(pairs)
+                    continue
+        i += 1
+    return removed
+
+
+class Sroa:
+    """Scalar replacement of private records.  A local that only ever holds an instance of a NamedTuple class of the
+    repository - built by the constructor or by a method of the class whose body is `return K(...)` - is replaced by one
+    local per field:
+
+        hits = _Hits(tri=a, ray=b)          hits__tri, hits__ray = (a, b)
+        d = f(hits.ray)                ->   d = f(hits__ray)
+        hits = hits.take(mask)              hits__tri, hits__ray = (hits__tri[mask], hits__ray[mask])
+        return tuple(hits)                  return (hits__tri, hits__ray)
+
+    Any other use of the local gets the record rebuilt from the fields (`K(tri=hits__tri, ray=hits__ray)`), which is the
+    same value.  The rewrite keeps behaviour (constructor arguments are evaluated in the order written; a method is
+    expanded only when its arguments are names, constants or attribute reads)."""
+
+    def __init__(self, ix):
+        self.ix = ix
+        self.count = 0
+
+    def _ctor(self, module, call):
+        """(ClassInfo, {field: expr} in call order) for `K(...)`"""
+        if not isinstance(call, ast.Call) or any(isinstance(a, ast.Starred) for a in call.args) or any(k.arg is None for k in call.keywords):
+            return None
+        rc = self.ix.record_class(module, call.func) if isinstance(call.func, (ast.Name, ast.Attribute)) else None
+        if rc is None:
+            return None
+        cls, fields = rc
+        names = [n for n, _ in fields]
+        if len(call.args) > len(names):
+            return None
+        bound = {}
+        for n, a in zip(names, call.args):
+            bound[n] = a
+        for k in call.keywords:
+            if k.arg not in names or k.arg in bound:
+                return None
+            bound[k.arg] = k.value
+        for n, d in fields:
+            if n not in bound:
+                if d is None:
+                    return None
+                bound[n] = copy.deepcopy(d)
+        return cls, bound
+
+    def _method(self, cls, name):
+        """(params, {field: expr over self.<field> and params}) for a method whose body is `return K(...)`"""
+        m = cls.methods.get(name)
+        if m is None or m.kind != "method" or m.node.decorator_list:
+            return None
+        a = m.node.args
+        if a.vararg or a.kwarg or a.kwonlyargs or a.defaults:
+            return None
+        body = _body_wo_doc(m.node)
+        if len(body) != 1 or not isinstance(body[0], ast.Return):
+            return None
+        c = self._ctor(m.module, body[0].value)
+        if c is None or c[0] is not cls:
+            return None
+        return [x.arg for x in a.posonlyargs + a.args], c[1]
+
+    def sroa_function(self, fi):
+        fnode, module = fi.node, fi.module
+        params = set(_params(fnode))
+        captured = set()
+        for n in ast.walk(fnode):
+            if isinstance(n, (ast.FunctionDef, ast.AsyncFunctionDef, ast.Lambda, ast.ClassDef)) and n is not fnode:
+                captured |= {x.id for x in ast.walk(n) if isinstance(x, ast.Name)}
+        parents = {}
+        for n in ast.walk(fnode):
+            for c in ast.iter_child_nodes(n):
+                parents[id(c)] = n
+        # candidate locals: every store is `h = K(...)` or `h = <candidate>.method(...)`
+        stores = {}
+        for n in ast.walk(fnode):
+            if isinstance(n, ast.Name) and isinstance(n.ctx, (ast.Store, ast.Del)):
+                stores.setdefault(n.id, []).append(n)
+        cand = {}
+        for name, sts in stores.items():
+            if name in params or name in captured:
+                continue
+            cls = None
+            ok = True
+            for s_ in sts:
+                par = parents.get(id(s_))
+                if not (isinstance(par, ast.Assign) and len(par.targets) == 1 and par.targets[0] is s_ and isinstance(par.value, ast.Call)):
+                    ok = False
+                    break
+                c = self._ctor(module, par.value)
+                if c is not None:
+                    if cls is not None and cls is not c[0]:
+                        ok = False
+                        break
+                    cls = c[0]
+            if ok and cls is not None:
+                cand[name] = cls
+        # method-produced stores must come from a candidate of the same class through an expandable method
+        changed = True
+        while changed:
+            changed = False
+            for name, cls in list(cand.items()):
+                for s_ in stores[name]:
+                    v = parents[id(s_)].value
+                    if self._ctor(module, v) is not None:
+                        continue
+                    f = v.func
+                    good = isinstance(f, ast.Attribute) and isinstance(f.value, ast.Name) and cand.get(f.value.id) is cls \
+                        and self._method(cls, f.attr) is not None and not v.keywords \
+                        and all(isinstance(a, (ast.Name, ast.Constant, ast.Attribute)) for a in v.args) \
+                        and len(v.args) == len(self._method(cls, f.attr)[0]) - 1
+                    if not good:
+                        del cand[name]
+                        changed = True
+                        break
+        if not cand:
+            return 0
+        fields = {name: [n for n, _ in self.ix.record_class(module, cls.dotted)[1]] for name, cls in cand.items()}
+
+        def fld(h, f_):
+            return f"{h}__{f_}"
+
+        sroa = self
+
+        class R(ast.NodeTransformer):
+            def visit_FunctionDef(self, node):
+                if node is fnode:
+                    self.generic_visit(node)
+                return node
+
+            visit_AsyncFunctionDef = visit_Lambda = visit_ClassDef = lambda self, node: node
+
+            def visit_Assign(self, node):
+                if len(node.targets) == 1 and isinstance(node.targets[0], ast.Name) and node.targets[0].id in cand:
+                    h = node.targets[0].id
+                    cls = cand[h]
+                    c = sroa._ctor(module, node.value)
+                    if c is not None:
+                        bound = {k: self.visit(v) for k, v in c[1].items()}
+                    else:
+                        src = node.value.func.value.id
+                        ps, exprs = sroa._method(cls, node.value.func.attr)
+                        sub = dict(zip(ps[1:], [self.visit(a) for a in node.value.args]))
+                        selfname = ps[0]
+
+                        class S(ast.NodeTransformer):
+                            def visit_Attribute(self, n):
+                                if isinstance(n.value, ast.Name) and n.value.id == selfname and n.attr in fields[src]:
+                                    return ast.Name(id=fld(src, n.attr), ctx=ast.Load())
+                                return self.generic_visit(n)
+
+                            def visit_Name(self, n):
+                                if n.id in sub and isinstance(n.ctx, ast.Load):
+                                    return copy.deepcopy(sub[n.id])
+                                return n
+
+                        bound = {k: S().visit(copy.deepcopy(v)) for k, v in exprs.items()}
+                    order = list(bound)
+                    new = ast.Assign(targets=[ast.Tuple(elts=[ast.Name(id=fld(h, k), ctx=ast.Store()) for k in order], ctx=ast.Store())],
+                                     value=ast.Tuple(elts=[bound[k] for k in order], ctx=ast.Load()))
+                    return ast.copy_location(new, node)
+                return self.generic_visit(node)
+
+            def visit_Attribute(self, node):
+                if isinstance(node.value, ast.Name) and node.value.id in cand and isinstance(node.ctx, ast.Load) and node.attr in fields[node.value.id]:
+                    return ast.copy_location(ast.Name(id=fld(node.value.id, node.attr), ctx=ast.Load()), node)
+                return self.generic_visit(node)
+
+            def visit_Subscript(self, node):
+                if isinstance(node.value, ast.Name) and node.value.id in cand and isinstance(node.slice, ast.Constant) and isinstance(node.slice.value, int) \
+                        and isinstance(node.ctx, ast.Load) and -len(fields[node.value.id]) <= node.slice.value < len(fields[node.value.id]):
+                    return ast.copy_location(ast.Name(id=fld(node.value.id, fields[node.value.id][node.slice.value]), ctx=ast.Load()), node)
+                return self.generic_visit(node)
+
+            def _expand_method(self, node):
+                """`h.method(args)` in expression position -> `K(field=<expr over h's fields>, ...)`"""
+                f = node.func
+                if not (isinstance(f, ast.Attribute) and isinstance(f.value, ast.Name) and f.value.id in cand and not node.keywords
+                        and all(isinstance(a, (ast.Name, ast.Constant, ast.Attribute)) for a in node.args)):
+                    return None
+                src, cls = f.value.id, cand[f.value.id]
+                mm = sroa._method(cls, f.attr)
+                if mm is None or len(node.args) != len(mm[0]) - 1:
+                    return None
+                ps, exprs = mm
+                sub = dict(zip(ps[1:], [self.visit(a) for a in node.args]))
+                selfname = ps[0]
+
+                class S(ast.NodeTransformer):
+                    def visit_Attribute(self, n):
+                        if isinstance(n.value, ast.Name) and n.value.id == selfname and n.attr in fields[src]:
+                            return ast.Name(id=fld(src, n.attr), ctx=ast.Load())
+                        return self.generic_visit(n)
+
+                    def visit_Name(self, n):
+                        if n.id in sub and isinstance(n.ctx, ast.Load):
+                            return copy.deepcopy(sub[n.id])
+                        return n
+
+                return ast.Call(func=ast.Name(id=cls.name, ctx=ast.Load()), args=[],
+                                keywords=[ast.keyword(arg=k, value=S().visit(copy.deepcopy(v))) for k, v in exprs.items()])
+
+            def visit_Call(self, node):
+                ex = self._expand_method(node)
+                if ex is not None:
+                    return ast.copy_location(ex, node)
+                if isinstance(node.func, ast.Name) and node.func.id in ("tuple", "list") and len(node.args) == 1 and not node.keywords:
+                    inner = node.args[0]
+                    elts = None
+                    if isinstance(inner, ast.Name) and inner.id in cand:
+                        elts = [ast.Name(id=fld(inner.id, k), ctx=ast.Load()) for k in fields[inner.id]]
+                    elif isinstance(inner, ast.Call):
+                        ex = self._expand_method(inner)
+                        c = sroa._ctor(module, ex if ex is not None else inner)
+                        if c is not None and (ex is not None or True):
+                            names_ = [n for n, _ in sroa.ix.record_class(module, c[0].dotted)[1]]
+                            vals = {k: (v if ex is not None else self.visit(v)) for k, v in c[1].items()}
+                            elts = [vals[k] for k in names_]
+                    if elts is not None:
+                        return ast.copy_location(ast.Tuple(elts=elts, ctx=ast.Load()) if node.func.id == "tuple" else ast.List(elts=elts, ctx=ast.Load()), node)
+                if isinstance(node.func, ast.Name) and node.func.id == "len" and len(node.args) == 1 and isinstance(node.args[0], ast.Name) and node.args[0].id in cand:
+                    return ast.copy_location(ast.Constant(value=len(fields[node.args[0].id])), node)
+                return self.generic_visit(node)
+
+            def visit_Name(self, node):
+                if node.id in cand and isinstance(node.ctx, ast.Load):
+                    cls = cand[node.id]
+                    return ast.copy_location(ast.Call(func=ast.Name(id=cls.name, ctx=ast.Load()), args=[],
+                                                      keywords=[ast.keyword(arg=k, value=ast.Name(id=fld(node.id, k), ctx=ast.Load())) for k in fields[node.id]]), node)
+                return node
+
+        R().visit(fnode)
+        ast.fix_missing_locations(fnode)
+        self.count += len(cand)
+        return len(cand)
+
+
 class _GiveUp(Exception):
     pass
 
@@ -820,7 +1106,7 @@ class Deflag:
 
 
 # ---------------------------------------------------------------------------------------------- views
-VIEWS = (("inline",), ("fold",), ("unroll",), ("deflag",), ("inline", "unroll", "deflag", "fold"))
+VIEWS = (("inline",), ("fold",), ("unroll",), ("deflag",), ("sroa",), ("inline", "sroa", "unroll", "deflag", "fold"))
 
 
 def _functions(ix, m):
@@ -834,19 +1120,28 @@ def build_view(repo, passes):
     ix = Index(repo)
     out = tempfile.mkdtemp(prefix="verif-view-")
     shutil.copytree(os.path.join(repo, PKG), os.path.join(out, PKG), ignore=shutil.ignore_patterns("__pycache__", "*.pyc"))
-    inl, fol, unr, dfl = Inliner(ix), Folder(), Unroller(), Deflag()
+    inl, fol, unr, dfl, sro = Inliner(ix), Folder(), Unroller(), Deflag(), Sroa(ix)
     linemap = {}
     changed = 0
     dirty = set()
     for m in ix.modules.values():
-        before = inl.count + fol.count + unr.count + dfl.count
+        before = inl.count + fol.count + unr.count + dfl.count + sro.count
         for n in ast.walk(m.tree):
             if isinstance(n, ast.stmt):
                 n._orig = n.lineno
         for fi in list(_functions(ix, m)):
             if "inline" in passes:
                 names = _all_names(fi.node)
+                c0 = inl.count
                 fi.node.body = inl.expand_block(fi, names, fi.node.body)
+                if inl.count != c0:
+                    propagate_renames(fi.node)
+        if "sroa" in passes:
+            for fi in list(_functions(ix, m)):
+                try:
+                    sro.sroa_function(fi)
+                except Exception:  # noqa - a rewrite that fails leaves the function as written
+                    pass
         if "unroll" in passes:
             for n in ast.walk(m.tree):
                 if isinstance(n, (ast.FunctionDef, ast.AsyncFunctionDef)):
@@ -859,7 +1154,7 @@ def build_view(repo, passes):
             for n in ast.walk(m.tree):
                 if isinstance(n, (ast.FunctionDef, ast.AsyncFunctionDef)):
                     fol.fold_function(n)
-        if inl.count + fol.count + unr.count + dfl.count != before:
+        if inl.count + fol.count + unr.count + dfl.count + sro.count != before:
             dirty.add(m.name)
     # a private helper whose every call was inlined and that nothing else mentions any more: its statements now live in its
     # callers; the definition stays (rules may look it up by name) but findings located in it are duplicates (sa/cli.py)
@@ -894,7 +1189,7 @@ def build_view(repo, passes):
         changed += 1
     with open(os.path.join(out, ".linemap.json"), "w") as f:
         json.dump(linemap, f)
-    return out, {"passes": list(passes), "modules_rewritten": changed, "helper_calls_inlined": inl.count, "locals_folded": fol.count, "loops_unrolled": unr.count, "flags_eliminated": dfl.count,
+    return out, {"passes": list(passes), "modules_rewritten": changed, "helper_calls_inlined": inl.count, "locals_folded": fol.count, "loops_unrolled": unr.count, "flags_eliminated": dfl.count, "records_replaced": sro.count,
                  "fully_inlined": sorted(fully), "inlined_into": {k: sorted(v) for k, v in inl.into.items()}, "sites": inl.sites[:40]}
 
 
